@@ -458,4 +458,7 @@ where
     fn is_end_stream(&self) -> bool {
         self.inner.is_end_stream()
     }
+    fn size_hint(&self) -> http_body::SizeHint {
+        self.inner.size_hint()
+    }
 }
